@@ -80,7 +80,9 @@ def Circle.from3Points (p0 p1 p2 : V2 α) : Option (Circle α) :=
   let bc := (p0.x * p0.x + p0.y * p0.y - temp) / 2
   let cd := (temp - p2.x * p2.x - p2.y * p2.y) / 2
   let det := (p0.x - p1.x) * (p1.y - p2.y) - (p1.x - p2.x) * (p0.y - p1.y)
-  if sabs det < collinearTol then none else
+  -- collinearity relative to the triangle: |det| = |p0−p1|·|p1−p2|·|sin angle|
+  let legs := V2.norm (V2.sub p0 p1) * V2.norm (V2.sub p1 p2)
+  if sabs det ≤ collinearTol * legs then none else
   let cx := (bc * (p1.y - p2.y) - cd * (p0.y - p1.y)) / det
   let cy := ((p0.x - p1.x) * cd - (p1.x - p2.x) * bc) / det
   some ⟨⟨cx, cy⟩, Scalar.sqrt ((cx - p0.x) * (cx - p0.x) + (cy - p0.y) * (cy - p0.y))⟩
